@@ -207,6 +207,10 @@ func checkC07(c *Check) {
 		c.Anchor("router.NotFound")
 	}
 
+	// ---- R6 the chain that runs is the chosen route's own
+	c.Rule("R6", "shared with C03 (R7)", "the per-request chain is a fresh slice of application middleware followed by the chosen route's (or the not-found) handlers: no other request's handlers can appear in it", 5)
+	c.Share("C03", []string{"R7"}, 5)
+
 	// ---- R5 determinism: no clock / randomness / environment in the routing path
 	c.Rule("R5", "E5 who-may-call ban", "functions of the routing path do not read the clock, random sources, the environment or package-level mutable state", 1)
 	banned := []string{"time.Now", "time.Since", "math/rand.", "crypto/rand.", "os.Getenv", "os.LookupEnv", "runtime.NumGoroutine"}
@@ -235,6 +239,14 @@ func checkC07(c *Check) {
 				}
 			}
 		})
+	}
+	// Go randomises map iteration order: a range over a map may be left early only if the body has had no
+	// effect (otherwise which entries were processed depends on the order)
+	for _, fn := range routingFuncs(p) {
+		for _, why := range orderDependentMapLoops(fn) {
+			nb++
+			c.Bad(p.FuncKey(fn)+":map-order-dependent", p.FuncPos(fn), why)
+		}
 	}
 	if nb == 0 {
 		c.OK("routing-path:deterministic-inputs", "internal/route", fmt.Sprintf("%d routing functions call no clock/random/environment source and read no mutable global", len(routingFuncs(p))), len(routingFuncs(p)))
@@ -1018,4 +1030,64 @@ func debugCursor2(p *Prog) {
 			fmt.Println(b.Name(), vstr(b), ca.eval(fn, fn.Params[1], b))
 		}
 	})
+}
+
+// orderDependentMapLoops reports range-over-map loops of fn that write state
+// in their body and can be left before the iterator is exhausted.
+func orderDependentMapLoops(fn *ssa.Function) []string {
+	var out []string
+	allInstrs(fn, func(in ssa.Instruction) {
+		next, ok := in.(*ssa.Next)
+		if !ok || next.IsString {
+			return
+		}
+		rg, ok := next.Iter.(*ssa.Range)
+		if !ok {
+			return
+		}
+		if _, isMap := rg.X.Type().Underlying().(*types.Map); !isMap {
+			return
+		}
+		exh := edgesWhere(fn, cBool(vExtract(0, vIs(next))), false)
+		more := edgesWhere(fn, cBool(vExtract(0, vIs(next))), true)
+		// effects in the body: reachable from the "more" edge without passing next again
+		effect := func(x ssa.Instruction) bool {
+			switch y := x.(type) {
+			case *ssa.MapUpdate, *ssa.Store:
+				return true
+			case ssa.CallInstruction:
+				return callName(y.Common()) == "builtin.delete"
+			}
+			return false
+		}
+		hasEffect := false
+		for e := range more {
+			if x, _ := (Query{Fn: fn, Avoid: isInstr(next)}).Reach(e.B.Succs[e.S], 0, effect); x != nil {
+				hasEffect = true
+			}
+		}
+		if !hasEffect {
+			return
+		}
+		// can the loop be left other than through exhaustion? from the body, reach a return or any
+		// block after the loop without taking the exhausted edge and without re-entering next
+		for e := range more {
+			x, _ := (Query{Fn: fn, Cut: exh, Avoid: isInstr(next)}).Reach(e.B.Succs[e.S], 0, func(x ssa.Instruction) bool {
+				if isReturn(x) {
+					return true
+				}
+				// an instruction that is only reachable after the loop: in a block the exhausted edge leads to
+				for ee := range exh {
+					if x.Block() == ee.B.Succs[ee.S] {
+						return true
+					}
+				}
+				return false
+			})
+			if x != nil {
+				out = append(out, "a range over a map that stores results in its body can be left early ("+blockPath([]*ssa.BasicBlock{x.Block()})+"): since map iteration order is random, repeating the same request gives different outcomes")
+			}
+		}
+	})
+	return out
 }
